@@ -31,6 +31,9 @@ THEOREMS = [
     "Escape.flatten_render", "Escape.flatten_error_iff", "Escape.flatten_balanced", "Escape.flatten_safe",
     "Escape.flatten_text",
     "Escape.double_path", "Escape.double_path_param",
+    "Escape.html2stan_encode", "Escape.sig_default_safe", "Escape.sig_default_text", "Escape.sig_default_nbsp_counterexample",
+    "Escape.quote_clean", "Escape.url_href_verbatim", "Escape.node2stan_starttag_safe", "Escape.rstPrefix_prefixed",
+    "Escape.mungeHref_fragment", "Escape.validIdentifierCss_clean",
     "Escape.sanitise_chars", "Escape.literal_holds_ok", "Escape.sanitise_guard", "Escape.sanitise_guard_partial",
     "Escape.sanitise_guard_counterexample",
     "Escape.identifier_clean", "Escape.identifier_guard", "Escape.identifier_guard_counterexample",
@@ -40,14 +43,20 @@ PARTIAL = {
     "Escape.sanitise_guard_partial":
         "historical: about the sanitiser between 50c0cec and 782581b (rstrip('\\\\')), which could leave a trailing blank "
         "(sanitise_guard_counterexample). The code as it is (sanitise true) has the full theorems sanitise_guard / identifier_guard.",
+    "Escape.sig_default_text":
+        "a string default containing U+00A0, U+FFFE or U+FFFF is excluded: the whole signature is then shown as (...) "
+        "(sig_default_nbsp_counterexample; the &nbsp; defect recorded under C09). sig_default_safe has no exclusion.",
     "Escape.double_path":
         "strings containing form feed, U+FFFE or U+FFFF are excluded (XMLString rejects them: html2stan raises and "
         "pydoctor falls back to plain text, which is C08's subject)",
 }
 RULE = ("function streams: random strings over an adversarial alphabet (< > & \" ' @, entity look-alikes, ]]> --> <!-- "
         "<script>, C0 controls, DEL, U+FFFE/U+FFFF, non-BMP) through the real twisted/docutils/pydoctor functions and the "
-        "Lean model; non-trivial = the string contains one of < > & \" ' or a control character. Stan trees through "
-        "stanutils.flatten. Taint stream: generated projects rendered by the real driver.main in every docformat; "
+        "Lean model (escaping functions, docutils start-tag writer, html2stan, the deprecate sanitiser and docutils' reading "
+        "of its result, format_signature of a string default, urllib quote / Documentable.url / taglink, node2stan.starttag "
+        "munging, _valid_identifier); non-trivial = the string contains one of < > & \" ' or a control character. Stan "
+        "trees through stanutils.flatten. Taint stream: a deterministic corpus (every finding's input, every seeded "
+        "change's shape) first, then generated projects rendered by the real driver.main in every docformat; "
         "non-trivial = markers in at least 3 different source positions.")
 ASSUMPTIONS = [
     "UTF-8 is ASCII-transparent: twisted's byte-level replace of ASCII metacharacters is modelled on code points",
@@ -60,6 +69,13 @@ ASSUMPTIONS = [
     "uses ASCII punctuation and no tabs)",
     "the HTML structure emitted by docutils' writer and by the templates is not modelled; it is covered by the taint "
     "stream only. reST raw/include directives are excluded by the property",
+    "format_signature's model covers one one-line string default: the two constant quote spans are taken as well-formed, so "
+    "the XML re-parse of the signature succeeds iff its text part reads (tied by the builder:format_signature stream)",
+    "node2stan.starttag is modelled for the call shapes starttag({}, tag, '', CLASS=v) and starttag({}, 'a', '', href=v) "
+    "(a node without ids/classes); heading detection uses ASCII digits",
+    "not modelled, covered by the taint stream only: _TARGET_RE splitting of `label <target>`, templates and slot "
+    "filling (twisted), the colorizer's node structure (C15's Pyval model), all-documents.html; searchindex.json and "
+    "objects.inv are not HTML pages (C17 models the inventory)",
     "attribute values of stan tags are strings (tags nested in attribute values, which twisted allows, are not modelled)",
     "lone surrogates are outside every stream (they cannot be encoded; C01's subject)",
 ]
@@ -1318,12 +1334,77 @@ def _lenient_match(want: str, got: str, kind: str) -> bool:
     return False
 
 
+def corpus_projects() -> List[Dict[str, Any]]:
+    """deterministic corpus, run FIRST on every run: the input of every recorded finding and the shape every seeded
+    change needs (seeded/C10-*/meta.json), so that their detection never depends on the seed"""
+    projs: List[Dict[str, Any]] = []
+    num = [9000]
+    Q3 = '"' * 3
+
+    def M(kind: str, payload: str) -> Marker:
+        num[0] += 1
+        return Marker(num[0], kind, payload)
+
+    def proj(docformat: str, body: str, ms: List[Marker]) -> None:
+        projs.append({"docformat": docformat, "files": {"tp/__init__.py": Q3 + "corpus" + Q3 + "\n" + body},
+                      "markers": [(m.id, m.num, m.kind, m.payload) for m in ms]})
+
+    def fn(name: str, sig: str, doc: str = "doc", deco: str = "", ind: str = "") -> str:
+        return (ind + deco if deco else "") + f"{ind}def {name}({sig}):\n{ind}    {Q3}{doc}{Q3}\n"
+
+    head = "from typing import Literal, Generic\nfrom twisted.python.deprecate import deprecated\nfrom incremental import Version\n"
+    # findings rst-injection:deprecated-replacement (+ :blank-before-trailing-backslash) and seeded C10-2
+    repl = ["a`` `MKURL{i} <javascript:alert({i})>`_ ``b", " *MKEM{i}* x", "x *MKEM{i}* ",
+            "x\rA *MKEM{i}* b\r\r.. raw:: html\r\r   <xmk{i} onzz{i}=1>\r\r", "x *MKEM{i}* \\", "x *MKEM{i}* \x00\\\\",
+            "new_api\n\n..\traw::\thtml\n\n\t<xmk{i}\tonzz{i}=\"1\"/>", "x\u2028A *MKEM{i}* b", "see\t*MKEM{i}*\n"]
+    for fmt in ("epytext", "restructuredtext"):
+        ms = [M("deprecated-replacement", r) for r in repl]
+        body = head + "".join(fn(f"f{k}", "", deco=f"@deprecated(Version('tp', 1, 2, 3), replacement={m.lit()})\n")
+                              for k, m in enumerate(ms))
+        proj(fmt, body, ms)
+    # seeded C10-r2-2: a value that trips the XML re-parse next to well-formed hostile markup, in one signature
+    NB = repr("\u00a0")
+    for fmt in ("epytext", "plaintext"):
+        ms = [M("default", "<img src=\"x\" onzz{i}=\"z()\"/>"), M("default", "<script>xmk{i}</script>"),
+              M("annotation", "<xmk{i} onzz{i}=\"x\">y</xmk{i}>"), M("default", "price:\u00a0<xmk{i} class=\"c\">10</xmk{i}>\u00a0EUR"),
+              M("constant", "<xmk{i}>m</xmk{i}>"), M("class-base-arg", "<xmk{i}/>"), M("decorator-arg", "<xmk{i}/>")]
+        body = (head + "def deco(*a, **k):\n    return lambda f: f\n"
+                + fn("g1", f"t={ms[0].lit()}, sep={NB}")
+                + "class K:\n    " + Q3 + "doc" + Q3 + "\n" + fn("m", f"self, h={ms[1].lit()}, pad={NB}", ind="    ")
+                + fn("g2", f"mode: Literal[{ms[2].lit()}] = None, unit: Literal[{repr(chr(160) + 'kg')}] = None")
+                + fn("g3", f"banner={ms[3].lit()}")
+                + f"CONST = [{NB}, {ms[4].lit()}]\n"
+                + f"class B(Generic[{ms[5].lit()}, {NB}]):\n    {Q3}doc{Q3}\n"
+                + fn("g4", "", deco=f"@deco({ms[6].lit()}, {NB})\n"))
+        proj(fmt, body, ms)
+    # seeded C10-1 (quote in an attribute value), C10-r2-1 (code language), C10-r2-3 (HTML-only entity look-alikes)
+    ms = [M("directive:image-alt", "diagram\" onzz{i}=\"1"), M("directive:code-language", "x\">a</pre><xmk{i}>m</xmk{i}><pre>"),
+          M("directive:code-language", "x\"><script>xmk{i}</script><pre>"), M("function-docstring", "&LT;xmk{i}&GT;m&LT;/xmk{i}&GT;"),
+          M("constant", "&LT;img src=&QUOT;x&QUOT; onzz{i}=&QUOT;1&QUOT;/&GT;"), M("directive:image-uri", "pic.png")]
+    body = (f"C2 = {ms[4].lit()}\n"
+            + fn("h1", "", f"\n    Summary.\n\n    .. image:: {ms[5].text}\n       :alt: {ms[0].text}\n    ")
+            + fn("h2", "", f"\n    Summary.\n\n    .. code:: {ms[1].text}\n\n       body <b>\n    ")
+            + fn("h3", "", f"\n    Summary.\n\n    .. code-block:: {ms[2].text}\n\n       body <b>\n    ")
+            + fn("h4", "", f"Summary {ms[3].text} end."))
+    proj("restructuredtext", body, ms)
+    for fmt in ("epytext", "google"):
+        ms2 = [M("function-docstring", "&LT;xmk{i}&GT;m&LT;/xmk{i}&GT;"), M("constant", "&LT;xmk{i}&GT;m&LT;/xmk{i}&GT;")]
+        proj(fmt, f"C3 = {ms2[1].lit()}\n" + fn("h5", "", f"Summary {ms2[0].text} end."), ms2)
+    for pr in projs:
+        ast.parse(pr["files"]["tp/__init__.py"])   # a corpus project that does not even parse would test nothing
+    return projs
+
+
 def run_one_project(args) -> Dict[str, Any]:
     """worker: build, render, check one project; returns a summary (picklable)"""
     seed, pidx, docformat, force = args
     import random
     rng = random.Random(f"C10-taint:{seed}:{pidx}")
-    proj = gen_project(rng, pidx, docformat, force_deprecated=force)
+    if pidx < 0:
+        proj = corpus_projects()[-pidx - 1]
+        docformat = proj["docformat"]
+    else:
+        proj = gen_project(rng, pidx, docformat, force_deprecated=force)
     tmp = tempfile.mkdtemp(prefix="c10-")
     out = os.path.join(tmp, "out")
     result: Dict[str, Any] = {"pidx": pidx, "docformat": docformat, "markers": proj["markers"], "files": proj["files"],
@@ -1368,7 +1449,9 @@ def taint_signature(sig: str) -> str:
 
 def run_taint_stream(ctx: Ctx) -> None:
     nproj = 40 if ctx.quick else 1000
-    jobs = []
+    if os.environ.get("C10_TAINT_PROJECTS"):   # debugging aid: e.g. 0 = corpus only
+        nproj = int(os.environ["C10_TAINT_PROJECTS"])
+    jobs = [(ctx.seed, -(k + 1), "corpus", False) for k in range(len(corpus_projects()))]   # corpus first
     for p in range(nproj):
         for fmt in DOCFORMATS:
             jobs.append((ctx.seed, p, fmt, p % 8 == 0))
@@ -1385,7 +1468,7 @@ def run_taint_stream(ctx: Ctx) -> None:
             sample = {"docformat": r["docformat"], "markers": [(m[0], m[2], m[3]) for m in r["markers"]][:6], "pages": r["pages"],
                       "violations": r["violations"][:2]}
         ctx.case(canonical, nontrivial, sample)
-        ctx.count("taint:projects:" + r["docformat"])
+        ctx.count("taint:projects:" + ("corpus:" if r["pidx"] < 0 else "") + r["docformat"])
         ctx.count("taint:pages", r["pages"])
         ctx.count("taint:markers-planted", len(r["markers"]))
         ctx.count("taint:markers-seen-on-pages", r["seen"])
